@@ -184,7 +184,7 @@ class C20(Prop):
 
     def nontrivial_key(self, c):
         k = c["k"]
-        inp = {x: c.get(x) for x in ("k", "upgrade", "accept", "doc", "has_default", "connection", "kind", "text", "method", "extra")}
+        inp = {x: c.get(x) for x in ("k", "upgrade", "accept", "doc", "has_default", "connection", "kind", "text", "method", "extra", "prior")}
         if k in ("route", "direct"):
             u, a = first(c.get("upgrade")), first(c.get("accept"))
             separates = (c.get("upgrade") and u == "") or (c.get("connection") and not u) or \
@@ -221,6 +221,8 @@ class C20(Prop):
                         yield dict(c, **{fld: v2})
             if c.get("connection"):
                 yield dict(c, connection=False)
+            if c.get("prior"):
+                yield dict(c, prior=None)
             if c.get("extra"):
                 yield dict(c, extra=None)
                 for e2 in drop_one(c["extra"]):
